@@ -1,4 +1,7 @@
 import FcpptProofs.C03.Parse
+import FcpptProofs.C03.NextArg
+import FcpptProofs.C03.Construct
+import FcpptProofs.C03.Term
 /-!
 # C03 — property theorems (see notes/C03.md for the clause-by-clause coverage)
 
@@ -126,5 +129,137 @@ theorem optional_missing_vs_other (f : Nat) (q : OP) (st : List Arg) (c : Ctx) :
 keeps `--f` in the state (so that `parse` reports the leftover) instead of dropping it -/
 example : parse 10 (.optional (.prod (OP.switch "a" none "f") (.arg "b" .int))) [(0, "--f")] [] =
     .ok ([(0, "--f")], [("a", .none), ("b", .none)], []) := by rfl
+
+/-- `many` is transactional (after fix 6e48692): the state it returns is exactly the state on which the inner
+parser reports `missing` — not one from which the failed last attempt has already taken arguments -/
+theorem many_stops_at_missing : ∀ (f : Nat) (q : OP) (st : List Arg) (c : Ctx) {st' : List Arg} {r : Rec} {lg : Log},
+    parse f (.many q) st c = .ok (st', r, lg) → ∃ g m, parse g q st' c = .error (.missing m) := by
+  intro f
+  induction f with
+  | zero => intro q st c st' r lg h; simp [parse] at h
+  | succ f ih =>
+    intro q st c st' r lg h
+    simp only [parse] at h
+    cases hq : parse f q st c with
+    | error e =>
+      cases e with
+      | missing m => simp [hq] at h; obtain ⟨rfl, _, _⟩ := h; exact ⟨f, m, hq⟩
+      | other => simp [hq] at h
+      | diverge => simp [hq] at h
+    | ok t =>
+      obtain ⟨st1, r1, lg1⟩ := t
+      simp only [hq] at h
+      cases hm : parse f (.many q) st1 c with
+      | error e => simp [hm] at h
+      | ok t2 =>
+        obtain ⟨st2, r2, lg2⟩ := t2
+        simp [hm] at h
+        obtain ⟨rfl, _, _⟩ := h
+        exact ih q st1 c hm
+
+/-! ## positional arguments: flags and option values are never taken -/
+
+/-- `next_arg` (as used by `argument` and `commands`) returns a split `x ++ y :: z` of the state **iff** `y` is not
+a flag and everything before it reads, left to right, as flags and *option name, value* pairs of the context:
+`y` is the first positional argument of the documented left-to-right reading. -/
+theorem next_arg_spec (st : List Arg) (c : Ctx) (x z : List Arg) (y : Arg) :
+    splitNext st c = some (x, y, z) ↔ st = x ++ y :: z ∧ skipped c (x.map Prod.snd) = true ∧ isFlag y.2 = none := by
+  constructor
+  · intro h
+    exact ⟨splitNext_eq st c h, (splitNext_sound st c h).1, (splitNext_sound st c h).2⟩
+  · rintro ⟨rfl, h1, h2⟩
+    exact splitNext_complete x y z c h1 h2
+
+/-- a token that starts with a dash (a flag, an option name, `-`, `--`, a negative number) is never positional -/
+theorem flags_never_positional {st : List Arg} {c : Ctx} {x z : List Arg} {y : Arg}
+    (h : splitNext st c = some (x, y, z)) : flagLike y.2 = false := by
+  have := (splitNext_sound st c h).2
+  unfold isFlag at this
+  unfold flagLike
+  cases hl : y.2.toList with
+  | nil => simp
+  | cons ch rest =>
+    simp only [hl] at this
+    by_cases hc : ch = '-'
+    · subst hc
+      cases rest with
+      | nil => simp at this
+      | cons d r => by_cases hd : d = '-' <;> simp [hd] at this
+    · simp [hc]
+
+/-- **an option's value is never taken as a positional argument**: if the tokens before `n` read as complete
+flags / option-value pairs and `n` is an option name of the context, the token right after `n` is not what
+`next_arg` returns -/
+theorem option_value_never_positional {st : List Arg} {c : Ctx} {x0 z : List Arg} {n v : Arg}
+    (hx : skipped c (x0.map Prod.snd) = true) (hn : isOptName c n.2 = true) :
+    splitNext st c ≠ some (x0 ++ [n], v, z) := by
+  intro h
+  have h1 := (splitNext_sound st c h).1
+  have : texts (x0 ++ [n]) = x0.map Prod.snd ++ [n.2] := by simp [texts]
+  rw [this, skipped_append c _ _ hx] at h1
+  simp [skipped, hn] at h1
+
+/-- `argument::parse` consumes exactly what `next_arg` finds -/
+theorem argument_takes_next_arg {f : Nat} {l : String} {ty : VTy} {st : List Arg} {c : Ctx} {st' : List Arg} {r : Rec} {lg : Log}
+    (h : parse (f + 1) (.arg l ty) st c = .ok (st', r, lg)) :
+    ∃ x y z, splitNext st c = some (x, y, z) ∧ st' = x ++ z ∧ lg = [(y.1, l)] ∧ convert ty y.2 = some ((r.map Prod.snd).headD .unit) := by
+  simp only [parse, popArg] at h
+  cases hs : splitNext st c with
+  | none => simp [hs] at h
+  | some t =>
+    obtain ⟨x, y, z⟩ := t
+    simp only [hs, Option.map_some] at h
+    split at h
+    · rename_i v hv
+      simp at h
+      obtain ⟨rfl, rfl, rfl⟩ := h
+      exact ⟨x, y, z, rfl, rfl, rfl, by simpa using hv⟩
+    · cases h
+
+/-! ## definitions -/
+
+/-- **the constructors accept exactly the well-formed definitions** (short ≠ long, active ≠ inactive for every
+value type, disjoint names in products, distinct sub-command names), everywhere in the tree -/
+theorem construct_ok_iff_wellformed (p : OP) : construct p = .ok () ↔ p.WellFormed := construct_iff p
+
+/-- the defect repaired by 986d19b as a regression example: `flag<L, std::string>` with distinct values constructs -/
+example : construct (.flag "a" none "mode" (.str "yes") (.str "no")) = .ok () := by rfl
+example : construct (.flag "a" none "mode" (.str "same") (.str "same")) = .error .optionsException := by rfl
+example : construct (.prod (OP.switch "a" none "f") (.opt "b" none "f" none .int)) = .error .duplicateNames := by rfl
+
+/-! ## termination -/
+
+/-- **`many` (and everything else) terminates** unless a `many` sits around a parser that can succeed without
+consuming: fuel `(|state| + 1) * size p` is enough, for every state and context -/
+theorem many_terminates {f : Nat} {p : OP} {st : List Arg} {c : Ctx} (hw : p.wfMany = true)
+    (hf : (st.length + 1) * p.size ≤ f) : parse f p st c ≠ .error .diverge := parse_terminates f p st c hw hf
+
+/-- the fuel the driver uses is enough: a `diverge` line of the model for a `wfMany` shape cannot occur -/
+theorem parseTop_terminates {p : OP} {args : List String} (hw : p.wfMany = true) :
+    parseTop (fuelFor p args.length) p args ≠ .error .diverge := by
+  unfold parseTop parseToEmpty
+  have hl : (index args).length = args.length := by simp [index]
+  have := parse_terminates (fuelFor p args.length) p (index args) p.optionNames hw (by rw [hl]; unfold fuelFor; omega)
+  split
+  · rename_i h; exact absurd h this
+  · simp
+  · split <;> simp
+
+/-- every success of a consuming parser takes at least one argument (what makes `many` well-founded) -/
+theorem consuming_shrinks {f : Nat} {p : OP} {st : List Arg} {c : Ctx} {st' : List Arg} {r : Rec} {lg : Log}
+    (hc : p.consuming = true) (h : parse f p st c = .ok (st', r, lg)) : st'.length < st.length := parse_shrinks hc h
+
+/-- the open known finding (`many` around a parser that succeeds without consuming): no fuel is enough -/
+theorem many_diverges_example (f : Nat) : parse f (.many (OP.switch "a" none "f")) [] [] = .error .diverge :=
+  many_switch_diverges f
+
+/-! ## non-vacuity -/
+
+example : parseTop 20 (.prod (.opt "a" none "o" none .int) (.arg "b" .str)) ["x", "--o", "5"] =
+    .ok ([("a", .int 5), ("b", .str "x")], [(1, "a"), (2, "a"), (0, "b")]) := by rfl
+example : (OP.many (.prod (.unitSwitch "a" none "k") (.arg "b" .int))).wfMany = true := by rfl
+example : (OP.commands (.unit "a") [("go", "x", .arg "b" .int)]).WellFormed := by
+  simp [OP.WellFormed, WellFormedSubs]
+example : splitNext [(0, "--o"), (1, "5"), (2, "-v"), (3, "x")] [("o", false)] = some ([(0, "--o"), (1, "5"), (2, "-v")], (3, "x"), []) := by rfl
 
 end Fcppt.C03
